@@ -1,1 +1,2 @@
 import NaunetModel.OdeGen
+import NaunetModel.Solve
